@@ -63,7 +63,15 @@ pub struct TreeSpace {
 pub const MARKER_PROBES: [&str; 3] = ["/.whiteout", "/.whiteout/a_wo", "/a_wo"];
 
 impl TreeSpace {
-    pub fn new(property: &str, cfg: Cfg, order: Order, alphabet: Alphabet, domain: Domain, inits: Vec<InitSpec>, mon: Monitors) -> TreeSpace {
+    pub fn new(
+        property: &str,
+        cfg: Cfg,
+        order: Order,
+        alphabet: Alphabet,
+        domain: Domain,
+        inits: Vec<InitSpec>,
+        mon: Monitors,
+    ) -> TreeSpace {
         let ops = alphabet.all_ops();
         let mut probes = alphabet.universe.paths.clone();
         if cfg.has_overlay() {
@@ -112,7 +120,10 @@ impl TreeSpace {
     }
 
     pub fn raw_snaps(&self, b: &Built) -> Vec<Snap> {
-        b.bases.iter().map(|base| snapshot(&base.raw, &self.base_probes(base))).collect()
+        b.bases
+            .iter()
+            .map(|base| snapshot(&base.raw, &self.base_probes(base)))
+            .collect()
     }
 
     fn is_plain(&self) -> bool {
@@ -159,7 +170,8 @@ impl TreeSpace {
                 return false;
             }
         }
-        if let Op::CopyDir(p, q) | Op::MoveDir(p, q) | Op::CopyFile(p, q) | Op::MoveFile(p, q) = op {
+        if let Op::CopyDir(p, q) | Op::MoveDir(p, q) | Op::CopyFile(p, q) | Op::MoveFile(p, q) = op
+        {
             // (move_file on a directory is a rename on PhysicalFS and takes the subtree along)
             if is_within(q, p) && p != q {
                 return false;
@@ -184,7 +196,11 @@ impl TreeSpace {
                     !(op.path().is_empty()
                         && matches!(
                             op,
-                            Op::RemoveDir(_) | Op::RemoveFile(_) | Op::RemoveDirAll(_) | Op::MoveDir(..) | Op::MoveFile(..)
+                            Op::RemoveDir(_)
+                                | Op::RemoveFile(_)
+                                | Op::RemoveDirAll(_)
+                                | Op::MoveDir(..)
+                                | Op::MoveFile(..)
                         ))
                 }
             }
@@ -227,7 +243,12 @@ impl TreeSpace {
         let mut s = String::new();
         for (base, raw) in b.bases.iter().zip(raws.iter()) {
             let full = format!("{}{}", base.prefix, p);
-            if raw.entries.get(&full).map(|o| matches!(o.exists, Ok(true))).unwrap_or(false) {
+            if raw
+                .entries
+                .get(&full)
+                .map(|o| matches!(o.exists, Ok(true)))
+                .unwrap_or(false)
+            {
                 s.push(if base.lower { 'L' } else { 'U' });
             }
         }
@@ -254,10 +275,20 @@ impl TreeSpace {
     ) -> (Vec<(String, String, Value)>, Option<Model>, bool) {
         let mut vio: Vec<(String, String, Value)> = vec![];
         let cfgl = self.cfg.label();
-        let tcl = format!("{}{}", tclass(before, op.path()), self.layer_class(b, before_raw, op.path()));
+        let tcl = format!(
+            "{}{}",
+            tclass(before, op.path()),
+            self.layer_class(b, before_raw, op.path())
+        );
         let dcl = op
             .dest()
-            .map(|q| format!("->{}{}", tclass(before, q), self.layer_class(b, before_raw, q)))
+            .map(|q| {
+                format!(
+                    "->{}{}",
+                    tclass(before, q),
+                    self.layer_class(b, before_raw, q)
+                )
+            })
             .unwrap_or_default();
         let head = format!("{}|{}|{}{}", cfgl, op.name(), tcl, dcl);
         let mut next_model: Option<Model> = model.cloned();
@@ -266,21 +297,43 @@ impl TreeSpace {
         if b.ctl.runaway.load(std::sync::atomic::Ordering::SeqCst) {
             vio.push((
                 format!("{}|runaway", head),
-                format!("{} on {} made more than {} calls into the filesystems (does not terminate)", op.show(), cfgl, CALL_HORIZON),
+                format!(
+                    "{} on {} made more than {} calls into the filesystems (does not terminate)",
+                    op.show(),
+                    cfgl,
+                    CALL_HORIZON
+                ),
                 json!({"observed": out.short()}),
             ));
             diverged = true;
         }
         if self.mon.panics {
             if let Outcome::Panic(m) = out {
-                vio.push((format!("{}|panic", head), format!("{} panicked: {}", op.show(), m), json!({"panic": m})));
+                vio.push((
+                    format!("{}|panic", head),
+                    format!("{} panicked: {}", op.show(), m),
+                    json!({"panic": m}),
+                ));
             }
             if let Some(m) = &after.panic {
-                vio.push((format!("{}|observer-panic", head), format!("an observer panicked after {}: {}", op.show(), m), json!({"panic": m})));
+                vio.push((
+                    format!("{}|observer-panic", head),
+                    format!("an observer panicked after {}: {}", op.show(), m),
+                    json!({"panic": m}),
+                ));
             }
             for (r, base) in after_raw.iter().zip(b.bases.iter()) {
                 if let Some(m) = &r.panic {
-                    vio.push((format!("{}|observer-panic@{}", head, base.label), format!("an observer on {} panicked after {}: {}", base.label, op.show(), m), json!({"panic": m})));
+                    vio.push((
+                        format!("{}|observer-panic@{}", head, base.label),
+                        format!(
+                            "an observer on {} panicked after {}: {}",
+                            base.label,
+                            op.show(),
+                            m
+                        ),
+                        json!({"panic": m}),
+                    ));
                 }
             }
         }
@@ -297,37 +350,66 @@ impl TreeSpace {
             let (exp, m2) = m.step(op);
             let mut bad: Option<(String, String)> = None;
             match (&exp, out) {
-                (_, Outcome::Panic(pm)) => bad = Some(("got=Panic".into(), format!("panicked: {}", pm))),
+                (_, Outcome::Panic(pm)) => {
+                    bad = Some(("got=Panic".into(), format!("panicked: {}", pm)))
+                }
                 (Expect::Ok(ret), Outcome::Ok(v)) => {
                     if let Some(n) = ret {
                         if *v != Val::Count(*n) {
-                            bad = Some(("got=Ok/wrong-return".into(), format!("returned {:?}, the model says {}", v, n)));
+                            bad = Some((
+                                "got=Ok/wrong-return".into(),
+                                format!("returned {:?}, the model says {}", v, n),
+                            ));
                         }
                     }
                     if bad.is_none() {
                         let d = diff_model(after, &m2, &self.probes);
                         if !d.is_empty() {
-                            bad = Some(("got=Ok/effect-differs".into(), format!("succeeded but the tree differs from the model: {}", d.join("; "))));
+                            bad = Some((
+                                "got=Ok/effect-differs".into(),
+                                format!(
+                                    "succeeded but the tree differs from the model: {}",
+                                    d.join("; ")
+                                ),
+                            ));
                         }
                     }
                     next_model = Some(m2);
                 }
                 (Expect::Ok(_), Outcome::Err(e)) => {
-                    bad = Some((format!("exp=Ok|got=Err({})", e.kind.name()), format!("failed with {} although its precondition holds", e.display)));
+                    bad = Some((
+                        format!("exp=Ok|got=Err({})", e.kind.name()),
+                        format!("failed with {} although its precondition holds", e.display),
+                    ));
                 }
                 (Expect::Err { .. }, Outcome::Ok(_)) => {
-                    bad = Some(("exp=Err|got=Ok".into(), "succeeded although its documented precondition does not hold".to_string()));
+                    bad = Some((
+                        "exp=Err|got=Ok".into(),
+                        "succeeded although its documented precondition does not hold".to_string(),
+                    ));
                 }
                 (Expect::Err { unchanged, kinds }, Outcome::Err(e)) => {
                     if !kinds.is_empty() && !kinds.contains(&e.kind) {
                         bad = Some((
-                            format!("exp=Err({})|got=Err({})", kinds.iter().map(|k| k.name()).collect::<Vec<_>>().join("/"), e.kind.name()),
-                            format!("failed with kind {} ({}), required kind {:?}", e.kind.name(), e.display, kinds),
+                            format!(
+                                "exp=Err({})|got=Err({})",
+                                kinds.iter().map(|k| k.name()).collect::<Vec<_>>().join("/"),
+                                e.kind.name()
+                            ),
+                            format!(
+                                "failed with kind {} ({}), required kind {:?}",
+                                e.kind.name(),
+                                e.display,
+                                kinds
+                            ),
                         ));
                     } else if *unchanged {
                         let d = diff_model(after, m, &self.probes);
                         if !d.is_empty() {
-                            bad = Some(("got=Err/tree-changed".into(), format!("failed but changed the tree: {}", d.join("; "))));
+                            bad = Some((
+                                "got=Err/tree-changed".into(),
+                                format!("failed but changed the tree: {}", d.join("; ")),
+                            ));
                         }
                     } else {
                         // failure effects not specified: resynchronise on the observed tree
@@ -335,7 +417,11 @@ impl TreeSpace {
                         if m3.well_formed() && diff_model(after, &m3, &self.probes).is_empty() {
                             next_model = Some(m3);
                         } else {
-                            bad = Some(("got=Err/tree-malformed".into(), "failed and left a tree that is not an abstract tree any more".to_string()));
+                            bad = Some((
+                                "got=Err/tree-malformed".into(),
+                                "failed and left a tree that is not an abstract tree any more"
+                                    .to_string(),
+                            ));
                         }
                     }
                 }
@@ -344,7 +430,7 @@ impl TreeSpace {
             if let Some((tail, what)) = bad {
                 diverged = true;
                 if !self.mon.model_only_kinds || tail.starts_with("exp=Err(") {
-                vio.push((
+                    vio.push((
                     format!("{}|{}", head, tail),
                     format!("{} on {} ({}): {}", op.show(), cfgl, tcl, what),
                     json!({"expected": format!("{:?}", exp), "observed": out.short(), "after": after.dump()}),
@@ -403,7 +489,11 @@ impl TreeSpace {
             if let Outcome::Ok(Val::Walk(items)) = out {
                 for e in items.iter().filter_map(|i| i.as_ref().err()) {
                     for (kind, what) in errpath_violations(e, op.path(), None) {
-                        vio.push((format!("{}|walk-item-{}", head, kind), format!("{} on {}: {}", op.show(), cfgl, what), json!({"observed": out.short()})));
+                        vio.push((
+                            format!("{}|walk-item-{}", head, kind),
+                            format!("{} on {}: {}", op.show(), cfgl, what),
+                            json!({"observed": out.short()}),
+                        ));
                     }
                 }
             }
@@ -422,14 +512,28 @@ impl TreeSpace {
                 if is_mutating(e.method) && lower_node {
                     vio.push((
                         format!("{}|mutating-call-on-lower-layer|{}", head, e.method),
-                        format!("{} on {} issued {}({:?}) to lower layer node {}", op.show(), cfgl, e.method, e.path, e.node),
+                        format!(
+                            "{} on {} issued {}({:?}) to lower layer node {}",
+                            op.show(),
+                            cfgl,
+                            e.method,
+                            e.path,
+                            e.node
+                        ),
                         json!({"log": format!("{:?}", log)}),
                     ));
                 }
                 if op.is_observer() && is_mutating(e.method) {
                     vio.push((
                         format!("{}|observer-issued-mutating-call|{}", head, e.method),
-                        format!("observer {} on {} issued {}({:?}) to node {}", op.show(), cfgl, e.method, e.path, e.node),
+                        format!(
+                            "observer {} on {} issued {}({:?}) to node {}",
+                            op.show(),
+                            cfgl,
+                            e.method,
+                            e.path,
+                            e.node
+                        ),
                         json!({"log": format!("{:?}", log)}),
                     ));
                 }
@@ -439,7 +543,14 @@ impl TreeSpace {
                 if x != y {
                     vio.push((
                         format!("{}|lower-layer-changed", head),
-                        format!("{} on {} changed lower layer #{}: before {:?} after {:?}", op.show(), cfgl, i, x, y),
+                        format!(
+                            "{} on {} changed lower layer #{}: before {:?} after {:?}",
+                            op.show(),
+                            cfgl,
+                            i,
+                            x,
+                            y
+                        ),
                         json!({"before": x, "after": y}),
                     ));
                 }
@@ -466,7 +577,15 @@ impl TreeSpace {
 impl TreeSpace {
     /// C20: re-runs `op` from the same state once per fault position k = 1..n (n = number of calls
     /// the fault-free run makes into wrapped filesystems) and, with `faults >= 2`, per pair k1 < k2.
-    fn fault_sweep(&self, st: &State<TAux>, op: &Op, out0: &Outcome, n: usize, after0: &Snap, e: &mut Expansion<TAux>) {
+    fn fault_sweep(
+        &self,
+        st: &State<TAux>,
+        op: &Op,
+        out0: &Outcome,
+        n: usize,
+        after0: &Snap,
+        e: &mut Expansion<TAux>,
+    ) {
         let mut plans: Vec<[usize; 2]> = (1..=n).map(|k| [k, 0]).collect();
         if self.mon.faults >= 2 && !op.is_observer() && !op.is_primitive() {
             for k1 in 1..=n {
@@ -483,19 +602,48 @@ impl TreeSpace {
             let after = snapshot(&b.root, &self.probes);
             e.transitions += 1;
             let reached = log.iter().filter(|l| l.injected).count();
-            *e.counters.entry(format!("faults:{}", if reached > 0 { "reached" } else { "not-reached" })).or_insert(0) += 1;
+            *e.counters
+                .entry(format!(
+                    "faults:{}",
+                    if reached > 0 {
+                        "reached"
+                    } else {
+                        "not-reached"
+                    }
+                ))
+                .or_insert(0) += 1;
             if reached == 0 {
                 continue; // an earlier fault changed the control flow (only possible for the second of a pair)
             }
-            let site = log.iter().find(|l| l.injected).map(|l| format!("{}@{}", l.method, if l.node == "0" { "top" } else if node_is_lower(&self.cfg, &l.node) { "lower" } else { "underlying" })).unwrap_or_default();
+            let site = log
+                .iter()
+                .find(|l| l.injected)
+                .map(|l| {
+                    format!(
+                        "{}@{}",
+                        l.method,
+                        if l.node == "0" {
+                            "top"
+                        } else if node_is_lower(&self.cfg, &l.node) {
+                            "lower"
+                        } else {
+                            "underlying"
+                        }
+                    )
+                })
+                .unwrap_or_default();
             let mut bad: Option<(String, String)> = None;
             match &out {
                 Outcome::Panic(m) => bad = Some(("panic".into(), format!("panicked: {}", m))),
                 Outcome::Err(_) => {
-                    *e.counters.entry("faults:turned-into-Err".into()).or_insert(0) += 1;
+                    *e.counters
+                        .entry("faults:turned-into-Err".into())
+                        .or_insert(0) += 1;
                 }
                 Outcome::Ok(Val::Walk(items)) if items.iter().any(|i| i.is_err()) => {
-                    *e.counters.entry("faults:turned-into-Err-item".into()).or_insert(0) += 1;
+                    *e.counters
+                        .entry("faults:turned-into-Err-item".into())
+                        .or_insert(0) += 1;
                 }
                 Outcome::Ok(v) => {
                     // success is only acceptable with the complete fault-free effect and answer
@@ -504,21 +652,42 @@ impl TreeSpace {
                         _ => false,
                     };
                     if !same_val {
-                        bad = Some(("ok-with-wrong-answer".into(), format!("returned {:?} although the fault-free run returns {}", v, out0.short())));
+                        bad = Some((
+                            "ok-with-wrong-answer".into(),
+                            format!(
+                                "returned {:?} although the fault-free run returns {}",
+                                v,
+                                out0.short()
+                            ),
+                        ));
                     } else if !after.same_tree(after0) {
                         bad = Some(("ok-with-partial-effect".into(), format!("returned Ok but the tree differs from the fault-free result: {:?} vs {:?}", after.dump(), after0.dump())));
                     } else {
-                        *e.counters.entry("faults:completed-by-another-route".into()).or_insert(0) += 1;
+                        *e.counters
+                            .entry("faults:completed-by-another-route".into())
+                            .or_insert(0) += 1;
                     }
                 }
             }
             for l in &log {
                 if is_mutating(l.method) && node_is_lower(&self.cfg, &l.node) {
-                    bad = Some(("mutating-call-on-lower-layer".into(), format!("issued {}({:?}) to lower layer node {}", l.method, l.path, l.node)));
+                    bad = Some((
+                        "mutating-call-on-lower-layer".into(),
+                        format!(
+                            "issued {}({:?}) to lower layer node {}",
+                            l.method, l.path, l.node
+                        ),
+                    ));
                 }
             }
             if let Some((tail, what)) = bad {
-                let sig = format!("{}|{}|fault-in-{}|{}", self.cfg.label(), op.name(), site, tail);
+                let sig = format!(
+                    "{}|{}|fault-in-{}|{}",
+                    self.cfg.label(),
+                    op.name(),
+                    site,
+                    tail
+                );
                 *e.vio_counts.entry(sig.clone()).or_insert(0) += 1;
                 if self.want_full(&sig) {
                     e.violations.push(Violation {
@@ -536,7 +705,12 @@ impl TreeSpace {
 /// Is the node id inside a non-first layer of some overlay of `cfg`?
 /// Description of the write handle a live system keeps open (empty: none); part of the state key.
 pub fn held_desc(b: &Built) -> Vec<u8> {
-    b.held.lock().unwrap().as_ref().map(|(_, d)| d.clone()).unwrap_or_default()
+    b.held
+        .lock()
+        .unwrap()
+        .as_ref()
+        .map(|(_, d)| d.clone())
+        .unwrap_or_default()
 }
 
 /// `apply` plus the session steps, whose handle lives with the system.
@@ -549,8 +723,16 @@ pub fn apply_sess(b: &Built, op: &Op) -> Outcome {
                     Ok(x) => x,
                     Err(e) => return Err(e),
                 };
-                let seed = if *append { PathApi::read_all(&path).unwrap_or_default() } else { vec![] };
-                let h = if *append { path.append_file() } else { path.create_file() };
+                let seed = if *append {
+                    PathApi::read_all(&path).unwrap_or_default()
+                } else {
+                    vec![]
+                };
+                let h = if *append {
+                    path.append_file()
+                } else {
+                    path.create_file()
+                };
                 match h {
                     Ok(h) => {
                         let mut d = format!("held|{}|{}|", p, append).into_bytes();
@@ -601,7 +783,11 @@ pub fn apply_sess(b: &Built, op: &Op) -> Outcome {
 }
 
 pub fn node_is_lower(cfg: &Cfg, node: &str) -> bool {
-    let idx: Vec<usize> = node.split('.').skip(1).filter_map(|s| s.parse().ok()).collect();
+    let idx: Vec<usize> = node
+        .split('.')
+        .skip(1)
+        .filter_map(|s| s.parse().ok())
+        .collect();
     let mut cur = cfg;
     for i in idx {
         match cur {
@@ -632,11 +818,22 @@ pub fn lower_deep(b: &Built) -> Vec<Vec<String>> {
             for p in items {
                 let m = PathApi::metadata(&p);
                 // (reading only touches `accessed`, which C08 deliberately leaves out)
-                let c = if matches!(m, Ok(Meta { ftype: FType::File, .. })) { p.read_all().ok() } else { None };
+                let c = if matches!(
+                    m,
+                    Ok(Meta {
+                        ftype: FType::File,
+                        ..
+                    })
+                ) {
+                    p.read_all().ok()
+                } else {
+                    None
+                };
                 v.push(format!(
                     "{} {:?} {:?}",
                     p.as_string(),
-                    m.map(|m| (m.ftype, m.len, m.created, m.modified)).map_err(|e| e.kind),
+                    m.map(|m| (m.ftype, m.len, m.created, m.modified))
+                        .map_err(|e| e.kind),
                     c
                 ));
             }
@@ -656,7 +853,11 @@ pub fn tclass(s: &Snap, p: &str) -> String {
     match meta(p) {
         Some((FType::File, _)) => "file".into(),
         Some((FType::Dir, _)) => {
-            let empty = s.entries.get(p).map(|o| o.list.as_ref().map(|l| l.is_empty()).unwrap_or(true)).unwrap_or(true);
+            let empty = s
+                .entries
+                .get(p)
+                .map(|o| o.list.as_ref().map(|l| l.is_empty()).unwrap_or(true))
+                .unwrap_or(true);
             if empty {
                 "empty-dir".into()
             } else {
@@ -680,11 +881,21 @@ pub fn wellformed_violations(before: &Snap, after: &Snap, _prefix: &str) -> Vec<
     match after.entries.get("") {
         Some(o) => {
             if o.exists != Ok(true) || o.is_dir != Ok(true) {
-                v.push(("root-not-a-directory".to_string(), format!("the root is not an existing directory (exists={:?}, is_dir={:?})", o.exists.as_ref().map_err(|e| e.kind), o.is_dir.as_ref().map_err(|e| e.kind))));
+                v.push((
+                    "root-not-a-directory".to_string(),
+                    format!(
+                        "the root is not an existing directory (exists={:?}, is_dir={:?})",
+                        o.exists.as_ref().map_err(|e| e.kind),
+                        o.is_dir.as_ref().map_err(|e| e.kind)
+                    ),
+                ));
                 return v;
             }
         }
-        None => v.push(("root-not-observed".into(), "root missing from snapshot".into())),
+        None => v.push((
+            "root-not-observed".into(),
+            "root missing from snapshot".into(),
+        )),
     }
     let walk: BTreeSet<String> = after.walk_set().unwrap_or_default().into_iter().collect();
     for p in after.existing() {
@@ -692,11 +903,24 @@ pub fn wellformed_violations(before: &Snap, after: &Snap, _prefix: &str) -> Vec<
             continue;
         }
         let par = parent_of(&p);
-        let pd = after.entries.get(&par).map(|o| o.is_dir == Ok(true)).unwrap_or(false);
+        let pd = after
+            .entries
+            .get(&par)
+            .map(|o| o.is_dir == Ok(true))
+            .unwrap_or(false);
         if !pd {
-            v.push(("orphan".to_string(), format!("{:?} exists but its parent {:?} is not an existing directory", p, par)));
+            v.push((
+                "orphan".to_string(),
+                format!(
+                    "{:?} exists but its parent {:?} is not an existing directory",
+                    p, par
+                ),
+            ));
         } else if !walk.contains(&p) {
-            v.push(("unreachable".to_string(), format!("{:?} exists but walk_dir(root) does not reach it", p)));
+            v.push((
+                "unreachable".to_string(),
+                format!("{:?} exists but walk_dir(root) does not reach it", p),
+            ));
         }
     }
     for (p, o) in &before.entries {
@@ -704,7 +928,10 @@ pub fn wellformed_violations(before: &Snap, after: &Snap, _prefix: &str) -> Vec<
             if !l.is_empty() {
                 if let Some(a) = after.entries.get(p) {
                     if matches!(a.meta, Ok((FType::File, _))) {
-                        v.push(("nonempty-dir-became-file".to_string(), format!("non-empty directory {:?} became a file", p)));
+                        v.push((
+                            "nonempty-dir-became-file".to_string(),
+                            format!("non-empty directory {:?} became a file", p),
+                        ));
                     }
                 }
             }
@@ -743,43 +970,101 @@ pub fn consistency_violations_static(s: &Snap) -> Vec<(String, String)> {
                 .map(|l| l.iter().filter(|c| *c == p).count());
             match (ex, listed) {
                 (true, Some(1)) | (false, Some(0)) | (false, None) => {}
-                (true, Some(0)) | (true, None) => v.push(("exists-but-not-listed".into(), format!("{:?} exists but its parent does not list it", p))),
-                (false, Some(_)) => v.push(("listed-but-not-exists".into(), format!("{:?} is listed by its parent but exists() is false", p))),
-                (true, Some(n)) => v.push(("listed-more-than-once".into(), format!("{:?} is listed {} times by its parent", p, n))),
+                (true, Some(0)) | (true, None) => v.push((
+                    "exists-but-not-listed".into(),
+                    format!("{:?} exists but its parent does not list it", p),
+                )),
+                (false, Some(_)) => v.push((
+                    "listed-but-not-exists".into(),
+                    format!("{:?} is listed by its parent but exists() is false", p),
+                )),
+                (true, Some(n)) => v.push((
+                    "listed-more-than-once".into(),
+                    format!("{:?} is listed {} times by its parent", p, n),
+                )),
             }
         }
         let is_dir = o.is_dir == Ok(true);
         let is_file = o.is_file == Ok(true);
         if is_dir != o.list.is_ok() {
-            v.push(("is_dir-vs-read_dir".into(), format!("{:?}: is_dir()={:?} but read_dir() is {}", p, o.is_dir.as_ref().map_err(|e| e.kind), if o.list.is_ok() { "Ok" } else { "Err" })));
+            v.push((
+                "is_dir-vs-read_dir".into(),
+                format!(
+                    "{:?}: is_dir()={:?} but read_dir() is {}",
+                    p,
+                    o.is_dir.as_ref().map_err(|e| e.kind),
+                    if o.list.is_ok() { "Ok" } else { "Err" }
+                ),
+            ));
         }
         if is_file != o.content.is_ok() {
-            v.push(("is_file-vs-read".into(), format!("{:?}: is_file()={:?} but open_file+read is {}", p, o.is_file.as_ref().map_err(|e| e.kind), if o.content.is_ok() { "Ok" } else { "Err" })));
+            v.push((
+                "is_file-vs-read".into(),
+                format!(
+                    "{:?}: is_file()={:?} but open_file+read is {}",
+                    p,
+                    o.is_file.as_ref().map_err(|e| e.kind),
+                    if o.content.is_ok() { "Ok" } else { "Err" }
+                ),
+            ));
         }
         if o.meta.is_ok() != ex {
-            v.push(("metadata-vs-exists".into(), format!("{:?}: exists()={} but metadata() is {}", p, ex, if o.meta.is_ok() { "Ok" } else { "Err" })));
+            v.push((
+                "metadata-vs-exists".into(),
+                format!(
+                    "{:?}: exists()={} but metadata() is {}",
+                    p,
+                    ex,
+                    if o.meta.is_ok() { "Ok" } else { "Err" }
+                ),
+            ));
         }
         if let Ok((t, len)) = &o.meta {
             if (*t == FType::Dir) != is_dir || (*t == FType::File) != is_file {
-                v.push(("metadata-type-vs-is_x".into(), format!("{:?}: metadata type {:?} but is_file={} is_dir={}", p, t, is_file, is_dir)));
+                v.push((
+                    "metadata-type-vs-is_x".into(),
+                    format!(
+                        "{:?}: metadata type {:?} but is_file={} is_dir={}",
+                        p, t, is_file, is_dir
+                    ),
+                ));
             }
             if *t == FType::Dir && *len != 0 {
-                v.push(("dir-len-nonzero".into(), format!("{:?}: directory reports len {}", p, len)));
+                v.push((
+                    "dir-len-nonzero".into(),
+                    format!("{:?}: directory reports len {}", p, len),
+                ));
             }
             if let (FType::File, Ok(c)) = (t, &o.content) {
                 if c.len() as u64 != *len {
-                    v.push(("len-vs-content".into(), format!("{:?}: metadata len {} but {} bytes read", p, len, c.len())));
+                    v.push((
+                        "len-vs-content".into(),
+                        format!("{:?}: metadata len {} but {} bytes read", p, len, c.len()),
+                    ));
                 }
             }
         }
         if !o.exists.is_ok() || !o.is_file.is_ok() || !o.is_dir.is_ok() {
-            v.push(("observer-error".into(), format!("{:?}: exists/is_file/is_dir returned an error", p)));
+            v.push((
+                "observer-error".into(),
+                format!("{:?}: exists/is_file/is_dir returned an error", p),
+            ));
         }
         if let Ok(l) = &o.list {
             for c in l {
                 let name = c.get(p.len()..).unwrap_or("");
-                if !c.starts_with(p.as_str()) || !name.starts_with('/') || name.len() < 2 || name[1..].contains('/') {
-                    v.push(("listed-name-not-a-bare-child".into(), format!("read_dir({:?}) returned {:?}, which is not a bare child name", p, c)));
+                if !c.starts_with(p.as_str())
+                    || !name.starts_with('/')
+                    || name.len() < 2
+                    || name[1..].contains('/')
+                {
+                    v.push((
+                        "listed-name-not-a-bare-child".into(),
+                        format!(
+                            "read_dir({:?}) returned {:?}, which is not a bare child name",
+                            p, c
+                        ),
+                    ));
                 }
             }
         }
@@ -800,7 +1085,10 @@ fn walk_violations<P: PathApi>(root: Option<&P>, s: &Snap) -> Vec<(String, Strin
         }
         let items: Vec<String> = if p.is_empty() {
             match &s.walk {
-                Ok(items) => items.iter().map(|i| i.clone().unwrap_or_else(|_| "<ERR>".into())).collect(),
+                Ok(items) => items
+                    .iter()
+                    .map(|i| i.clone().unwrap_or_else(|_| "<ERR>".into()))
+                    .collect(),
                 Err(_) => {
                     v.push(("walk-failed".into(), "walk_dir(root) failed".into()));
                     continue;
@@ -808,9 +1096,15 @@ fn walk_violations<P: PathApi>(root: Option<&P>, s: &Snap) -> Vec<(String, Strin
             }
         } else {
             match at(root.unwrap(), p).and_then(|x| x.walk()) {
-                Ok(items) => items.into_iter().map(|i| i.map(|c| c.as_string()).unwrap_or_else(|_| "<ERR>".into())).collect(),
+                Ok(items) => items
+                    .into_iter()
+                    .map(|i| i.map(|c| c.as_string()).unwrap_or_else(|_| "<ERR>".into()))
+                    .collect(),
                 Err(_) => {
-                    v.push(("walk-failed".into(), format!("walk_dir({:?}) failed on a directory", p)));
+                    v.push((
+                        "walk-failed".into(),
+                        format!("walk_dir({:?}) failed on a directory", p),
+                    ));
                     continue;
                 }
             }
@@ -818,31 +1112,57 @@ fn walk_violations<P: PathApi>(root: Option<&P>, s: &Snap) -> Vec<(String, Strin
         let want: BTreeSet<String> = s
             .entries
             .iter()
-            .filter(|(q, qo)| qo.exists == Ok(true) && q.len() > p.len() && is_within(q, p) && *q != p)
+            .filter(|(q, qo)| {
+                qo.exists == Ok(true) && q.len() > p.len() && is_within(q, p) && *q != p
+            })
             .map(|(q, _)| q.clone())
             .collect();
         let mut seen: BTreeMap<String, usize> = BTreeMap::new();
         for (i, it) in items.iter().enumerate() {
             if seen.insert(it.clone(), i).is_some() {
-                v.push(("walk-duplicate".into(), format!("walk_dir({:?}) yields {:?} more than once", p, it)));
+                v.push((
+                    "walk-duplicate".into(),
+                    format!("walk_dir({:?}) yields {:?} more than once", p, it),
+                ));
             }
         }
         for it in &items {
             if it == "<ERR>" {
-                v.push(("walk-error-item".into(), format!("walk_dir({:?}) yields an error item in a quiescent state", p)));
+                v.push((
+                    "walk-error-item".into(),
+                    format!(
+                        "walk_dir({:?}) yields an error item in a quiescent state",
+                        p
+                    ),
+                ));
             } else if !want.contains(it) {
-                v.push(("walk-extra".into(), format!("walk_dir({:?}) yields {:?}, which is not an existing descendant", p, it)));
+                v.push((
+                    "walk-extra".into(),
+                    format!(
+                        "walk_dir({:?}) yields {:?}, which is not an existing descendant",
+                        p, it
+                    ),
+                ));
             }
         }
         for w in &want {
             match seen.get(w) {
-                None => v.push(("walk-missing".into(), format!("walk_dir({:?}) does not yield descendant {:?}", p, w))),
+                None => v.push((
+                    "walk-missing".into(),
+                    format!("walk_dir({:?}) does not yield descendant {:?}", p, w),
+                )),
                 Some(i) => {
                     let par = parent_of(w);
                     if par != *p {
                         if let Some(j) = seen.get(&par) {
                             if j > i {
-                                v.push(("walk-child-before-parent".into(), format!("walk_dir({:?}) yields {:?} before its directory {:?}", p, w, par)));
+                                v.push((
+                                    "walk-child-before-parent".into(),
+                                    format!(
+                                        "walk_dir({:?}) yields {:?} before its directory {:?}",
+                                        p, w, par
+                                    ),
+                                ));
                             }
                         }
                     }
@@ -858,8 +1178,16 @@ fn walk_violations<P: PathApi>(root: Option<&P>, s: &Snap) -> Vec<(String, Strin
 pub fn errpath_violations(e: &EInfo, p: &str, q: Option<&str>) -> Vec<(String, String)> {
     let mut v = vec![];
     const PLACEHOLDER: &str = "PATH NOT FILLED BY VFS LAYER";
-    if e.display.contains(PLACEHOLDER) || e.path.as_deref().map(|x| x.contains(PLACEHOLDER)).unwrap_or(false) {
-        v.push(("placeholder-path".into(), format!("error carries the unfilled placeholder path: {}", e.display)));
+    if e.display.contains(PLACEHOLDER)
+        || e.path
+            .as_deref()
+            .map(|x| x.contains(PLACEHOLDER))
+            .unwrap_or(false)
+    {
+        v.push((
+            "placeholder-path".into(),
+            format!("error carries the unfilled placeholder path: {}", e.display),
+        ));
         return v;
     }
     if let Some(ep) = &e.path {
@@ -883,7 +1211,11 @@ pub fn observer_err_violations(s: &Snap) -> Vec<(String, String, String)> {
         if p.is_empty() {
             continue;
         }
-        let parent_is_dir = s.entries.get(&parent_of(p)).map(|x| x.is_dir == Ok(true)).unwrap_or(false);
+        let parent_is_dir = s
+            .entries
+            .get(&parent_of(p))
+            .map(|x| x.is_dir == Ok(true))
+            .unwrap_or(false);
         let missing = o.exists == Ok(false) && parent_is_dir;
         let mut errs: Vec<(&str, &EInfo)> = vec![];
         if let Err(e) = &o.meta {
@@ -903,7 +1235,11 @@ pub fn observer_err_violations(s: &Snap) -> Vec<(String, String, String)> {
                 continue; // io::Error out of a read handle, not a path operation's error
             }
             for (kind, what) in errpath_violations(e, p, None) {
-                v.push((format!("{}-{}", m, kind), format!("{}({:?}): {}", m, p, what), p.clone()));
+                v.push((
+                    format!("{}-{}", m, kind),
+                    format!("{}({:?}): {}", m, p, what),
+                    p.clone(),
+                ));
             }
             if missing && e.kind != Kind::NotFound {
                 v.push((
@@ -921,15 +1257,30 @@ pub fn observer_err_violations(s: &Snap) -> Vec<(String, String, String)> {
 pub fn marker_violations(s: &Snap) -> Vec<(String, String)> {
     let mut v = vec![];
     let is_marker = |p: &str| p.split('/').any(|c| c == ".whiteout" || c.ends_with("_wo"));
-    let loc = |p: &str| if in_marker_dir(p) { "in-root-.whiteout-dir" } else { "elsewhere" };
+    let loc = |p: &str| {
+        if in_marker_dir(p) {
+            "in-root-.whiteout-dir"
+        } else {
+            "elsewhere"
+        }
+    };
     for (p, o) in &s.entries {
         if is_marker(p) && (o.exists == Ok(true) || o.meta.is_ok()) {
-            v.push((format!("exists|{}", loc(p)), format!("bookkeeping entry {:?} exists in the overlay's namespace", p)));
+            v.push((
+                format!("exists|{}", loc(p)),
+                format!(
+                    "bookkeeping entry {:?} exists in the overlay's namespace",
+                    p
+                ),
+            ));
         }
         if let Ok(l) = &o.list {
             for c in l {
                 if is_marker(c) {
-                    v.push((format!("listed|{}", loc(c)), format!("read_dir({:?}) lists bookkeeping entry {:?}", p, c)));
+                    v.push((
+                        format!("listed|{}", loc(c)),
+                        format!("read_dir({:?}) lists bookkeeping entry {:?}", p, c),
+                    ));
                 }
             }
         }
@@ -937,7 +1288,10 @@ pub fn marker_violations(s: &Snap) -> Vec<(String, String)> {
     if let Ok(items) = &s.walk {
         for i in items.iter().flatten() {
             if is_marker(i) {
-                v.push((format!("walked|{}", loc(i)), format!("walk_dir yields bookkeeping entry {:?}", i)));
+                v.push((
+                    format!("walked|{}", loc(i)),
+                    format!("walk_dir yields bookkeeping entry {:?}", i),
+                ));
             }
         }
     }
@@ -948,7 +1302,13 @@ impl Space for TreeSpace {
     type Aux = TAux;
 
     fn label(&self) -> String {
-        format!("{} {} {:?} order={:?}", self.cfg.label(), self.alphabet.universe.name, self.domain, self.order)
+        format!(
+            "{} {} {:?} order={:?}",
+            self.cfg.label(),
+            self.alphabet.universe.name,
+            self.domain,
+            self.order
+        )
     }
 
     fn initial(&self) -> Vec<(TAux, u128, Vec<Violation>)> {
@@ -956,7 +1316,11 @@ impl Space for TreeSpace {
         for (i, spec) in self.inits.iter().enumerate() {
             let b = self.rebuild(i, &[]);
             let obs = snapshot(&b.root, &self.probes);
-            let raws = if self.is_plain() { vec![] } else { self.raw_snaps(&b) };
+            let raws = if self.is_plain() {
+                vec![]
+            } else {
+                self.raw_snaps(&b)
+            };
             let key = self.key_of(&obs, &raws, &[]);
             let mut vio = vec![];
             let model = if self.mon.model {
@@ -965,8 +1329,16 @@ impl Space for TreeSpace {
                 if !d.is_empty() {
                     vio.push(Violation {
                         property: self.property.clone(),
-                        signature: format!("{}|initial-state|view-differs-from-union", self.cfg.label()),
-                        summary: format!("initial view of {} ({}) differs from the union of its layers: {}", self.cfg.label(), spec.label, d.join("; ")),
+                        signature: format!(
+                            "{}|initial-state|view-differs-from-union",
+                            self.cfg.label()
+                        ),
+                        summary: format!(
+                            "initial view of {} ({}) differs from the union of its layers: {}",
+                            self.cfg.label(),
+                            spec.label,
+                            d.join("; ")
+                        ),
                         replay: self.replay_json(i, &[], None, json!({"after": obs.dump()})),
                     });
                 }
@@ -995,7 +1367,18 @@ impl Space for TreeSpace {
                 sig_counts: Default::default(),
             };
             let raws_full = self.raw_snaps(&b);
-            let (vs, _, _) = tmp.check_step(&b, &dummy, &Outcome::Ok(Val::Unit), &[], &obs, &raws_full, &obs, &raws_full, None, &[]);
+            let (vs, _, _) = tmp.check_step(
+                &b,
+                &dummy,
+                &Outcome::Ok(Val::Unit),
+                &[],
+                &obs,
+                &raws_full,
+                &obs,
+                &raws_full,
+                None,
+                &[],
+            );
             for (sig, summary, extra) in vs {
                 vio.push(Violation {
                     property: self.property.clone(),
@@ -1042,7 +1425,11 @@ impl Space for TreeSpace {
                 Some(b) => b,
                 None => self.rebuild(st.init, &st.hist),
             };
-            let deep_before = if self.mon.lower_immutable { lower_deep(&b) } else { vec![] };
+            let deep_before = if self.mon.lower_immutable {
+                lower_deep(&b)
+            } else {
+                vec![]
+            };
             b.ctl.arm([0, 0]);
             let out = apply_sess(&b, op);
             let ncalls = b.ctl.calls.load(std::sync::atomic::Ordering::SeqCst);
@@ -1053,10 +1440,22 @@ impl Space for TreeSpace {
             }
             let after_raw = if need_raw { self.raw_snaps(&b) } else { vec![] };
             e.transitions += 1;
-            let (vs, next_model, diverged) = self.check_step(&b, op, &out, &log, &before, &before_raw, &after, &after_raw, model, &deep_before);
+            let (vs, next_model, diverged) = self.check_step(
+                &b,
+                op,
+                &out,
+                &log,
+                &before,
+                &before_raw,
+                &after,
+                &after_raw,
+                model,
+                &deep_before,
+            );
             // a state invariant (C03, C05) broken by this transition is reported here; the broken
             // state is not expanded (what happens in it is a consequence of the reported defect)
-            let diverged = diverged || ((self.mon.wellformed || self.mon.consistency) && !vs.is_empty());
+            let diverged =
+                diverged || ((self.mon.wellformed || self.mon.consistency) && !vs.is_empty());
             for (sig, summary, extra) in vs {
                 *e.vio_counts.entry(sig.clone()).or_insert(0) += 1;
                 if self.want_full(&sig) {
@@ -1071,35 +1470,68 @@ impl Space for TreeSpace {
             let key = self.key_of(&after, &after_raw, &held_desc(&b));
             let changed = key != st.key;
             // statistics
-            *e.counters.entry(format!("{}:{}", op.name(), out.class())).or_insert(0) += 1;
+            *e.counters
+                .entry(format!("{}:{}", op.name(), out.class()))
+                .or_insert(0) += 1;
             let tc = tclass(&before, op.path());
             let refused_nontrivially = out.is_err() && !tc.starts_with("absent-");
             if changed || refused_nontrivially {
                 let mut h = std::collections::hash_map::DefaultHasher::new();
-                (tc.as_str(), op.show(), out.class(), op.dest().map(|q| tclass(&before, q))).hash(&mut h);
+                (
+                    tc.as_str(),
+                    op.show(),
+                    out.class(),
+                    op.dest().map(|q| tclass(&before, q)),
+                )
+                    .hash(&mut h);
                 e.nontrivial.push(h.finish());
             }
             if self.cfg.has_overlay() && !op.is_observer() {
                 let lc = self.layer_class(&b, &before_raw, op.path());
                 if lc.contains('L') {
-                    *e.counters.entry("nonvacuity:mutating-call-on-path-present-in-lower-layer".into()).or_insert(0) += 1;
-                    if out.is_ok() && matches!(op, Op::RemoveFile(_) | Op::RemoveDir(_) | Op::RemoveDirAll(_)) {
-                        *e.counters.entry("nonvacuity:successful-removal-of-lower-layer-entry".into()).or_insert(0) += 1;
+                    *e.counters
+                        .entry("nonvacuity:mutating-call-on-path-present-in-lower-layer".into())
+                        .or_insert(0) += 1;
+                    if out.is_ok()
+                        && matches!(
+                            op,
+                            Op::RemoveFile(_) | Op::RemoveDir(_) | Op::RemoveDirAll(_)
+                        )
+                    {
+                        *e.counters
+                            .entry("nonvacuity:successful-removal-of-lower-layer-entry".into())
+                            .or_insert(0) += 1;
                     }
                 }
-                if out.is_ok() && matches!(op, Op::CreateDir(_) | Op::CreateFile(..) | Op::CreateDirAll(_)) {
+                if out.is_ok()
+                    && matches!(
+                        op,
+                        Op::CreateDir(_) | Op::CreateFile(..) | Op::CreateDirAll(_)
+                    )
+                {
                     let wp = b.bases.iter().zip(before_raw.iter()).any(|(base, raw)| {
-                        base.upper && raw.entries.get(&format!("{}/.whiteout{}_wo", base.prefix, op.path())).map(|o| o.exists == Ok(true)).unwrap_or(false)
+                        base.upper
+                            && raw
+                                .entries
+                                .get(&format!("{}/.whiteout{}_wo", base.prefix, op.path()))
+                                .map(|o| o.exists == Ok(true))
+                                .unwrap_or(false)
                     });
                     if wp {
-                        *e.counters.entry("nonvacuity:re-creation-of-removed-lower-entry".into()).or_insert(0) += 1;
+                        *e.counters
+                            .entry("nonvacuity:re-creation-of-removed-lower-entry".into())
+                            .or_insert(0) += 1;
                     }
                 }
             }
             e.succ.push(Succ {
                 op: op.clone(),
                 key,
-                aux: if diverged { None } else { Some(TAux { model: next_model }) },
+                aux: if diverged {
+                    None
+                } else {
+                    Some(TAux { model: next_model })
+                },
             });
         }
         e
